@@ -318,10 +318,13 @@ def resource_dict_transformer(world_handle: WorldFromFileHandle, world: World,
     while root_map.parent is not None:
         root_map = root_map.parent
 
-    if not isinstance(root_map, ResourceMap):
-        raise TypeError('World Handle not connected to a ResourceMap. '
-                        'Unable to retrieve resources through the '
-                        r'$res{} format.')
+    def get_root_map():
+        # Needed (and checked) only if a resource is actually asked for
+        if not isinstance(root_map, ResourceMap):
+            raise TypeError('World Handle not connected to a ResourceMap. '
+                            'Unable to retrieve resources through the '
+                            r'$res{} format.')
+        return root_map
 
     def map_function(arg):
         if not isinstance(arg, str):        # Skip non-strings
@@ -329,12 +332,14 @@ def resource_dict_transformer(world_handle: WorldFromFileHandle, world: World,
 
         match = RESOURCE_STRING_REGEX.match(arg)
         if match is not None:
-            res_string = root_map.split_char.join(match.groups()[0].split('.'))
+            res_string = get_root_map().split_char.join(
+                match.groups()[0].split('.'))
             return root_map[res_string]
 
         match = HANDLE_STRING_REGEX.match(arg)
         if match is not None:
-            res_string = root_map.split_char.join(match.groups()[0].split('.'))
+            res_string = get_root_map().split_char.join(
+                match.groups()[0].split('.'))
             return root_map.get(res_string)
 
         return arg
